@@ -147,7 +147,9 @@ tokFilled:
 
 	start.Head = expr
 
-	tok, err = lexer.PeekNextToken(0)
+	// we are inside a list: if the input pauses here, wait for the rest
+	// before deciding whether a dotted-pair backslash follows.
+	tok, err = parser.ParserPeekNextToken(0)
 	if err != nil {
 		return SexpNull, err
 	}
